@@ -680,9 +680,9 @@ def apply_transforms_for_fullrank(
                     # full is list representing the shape/length of the tensor
                     # and tensor is a float
                     if 'full' in json_object['x']:
-                        tensor_list = (
-                            json_object['x']['full'] * json_object['x']['tensor']
-                        )
+                        tensor_list = torch.full(
+                            json_object['x']['full'], json_object['x']['tensor']
+                        ).tolist()
                     var_parameters.append((json_object['id'], unres_id, tensor_list))
             elif CONSTRAINT.LOWER.value in json_object:
                 if json_object[CONSTRAINT.LOWER.value] > 0:
